@@ -270,13 +270,22 @@ def selftest(only=None):
     ran = 0
     summary = {}
     try:
+        jobs = []
         for meta_path in sorted(glob.glob(os.path.join(VERIF, 'seeded', '*', 'meta.json'))):
             meta = json.load(open(meta_path))
             if not meta.get('confirmed'):
                 continue
+            if only and meta['property'] != only and not meta['seed'].startswith(only) and ('-%s-' % only) not in meta['seed']:
+                continue      # a property id, a seed id prefix, or a round tag such as r4
+            jobs.append((meta_path, meta))
+        head = subprocess.run(['git', '-C', REPO, 'rev-parse', '--short', 'HEAD'], capture_output=True, text=True).stdout.strip()
+        njobs = max(1, int(os.environ.get('VERIF_SELFTEST_JOBS', '3')))
+        per = max(2, 16 // njobs)
+
+        def one(job):
+            import re as _re
+            meta_path, meta = job
             pid = meta['property']
-            if only and pid != only:
-                continue
             d = os.path.join(base, meta['seed'])
             os.makedirs(d)
             subprocess.run('git -C %s archive HEAD | tar -x -C %s' % (REPO, d), shell=True, check=True)
@@ -289,28 +298,38 @@ def selftest(only=None):
             if p.returncode != 0:
                 p = subprocess.run(['patch', '-p1', '-s', '-i', patch_file], cwd=d, capture_output=True, text=True)
             if p.returncode != 0:
-                print('SELFTEST %s: patch no longer applies to HEAD (skipped)' % meta['seed'])
                 shutil.rmtree(d)
-                continue
+                return meta['seed'], None
             env = dict(os.environ)
             env['VERIF_REPO'] = d
             env['VERIF_SELFTEST'] = '1'
+            env['VERIF_WORKERS'] = str(per)
+            env['TMPDIR'] = os.path.join(base, 'tmp-' + meta['seed'])     # evidence / bounded scratch of this run: removed with `base`
+            os.makedirs(env['TMPDIR'], exist_ok=True)
             r = subprocess.run([os.path.join(VERIF, 'check'), pid, '--tier', 'quick'], cwd=VERIF, env=env,
                                capture_output=True, text=True)
-            ran += 1
+            shutil.rmtree(d, ignore_errors=True)
             vio = [l for l in r.stdout.splitlines() if l.startswith('VIOLATION')]
             named = [l for l in vio if 'obligation=' in l]
-            print('SELFTEST %s: exit=%d, %d violation line(s), %d by a named obligation' % (meta['seed'], r.returncode, len(vio), len(named)), flush=True)
-            if r.returncode != 1:
-                missed.append(meta['seed'])
-            import re as _re
-            summary[meta['seed']] = {
+            return meta['seed'], {
                 'property': pid, 'exit': r.returncode, 'violation_lines': len(vio),
                 'obligations': sorted({m.group(1) for l in named for m in [_re.search(r'obligation=(\S+)', l)] if m})[:6],
                 'bounded_classes': sorted({m.group(1) for l in vio for m in [_re.search(r'class=(\S+)', l)] if m})[:4],
                 'no_failing_input_found_only': bool(vio) and all(l.rstrip().endswith('no-failing-input-found') for l in vio),
-                'head': subprocess.run(['git', '-C', REPO, 'rev-parse', '--short', 'HEAD'], capture_output=True, text=True).stdout.strip()}
-            shutil.rmtree(d)
+                'head': head, 'named': len(named)}
+
+        from concurrent.futures import ThreadPoolExecutor
+        with ThreadPoolExecutor(max_workers=njobs) as tp:
+            for seed_id, res in tp.map(one, jobs):
+                if res is None:
+                    print('SELFTEST %s: patch no longer applies to HEAD (skipped)' % seed_id, flush=True)
+                    continue
+                ran += 1
+                print('SELFTEST %s: exit=%d, %d violation line(s), %d by a named obligation' % (
+                    seed_id, res['exit'], res['violation_lines'], res.pop('named')), flush=True)
+                if res['exit'] != 1:
+                    missed.append(seed_id)
+                summary[seed_id] = res
     finally:
         shutil.rmtree(base, ignore_errors=True)
     print('SELFTEST: %d seeded changes run, %d not detected: %s' % (ran, len(missed), missed))
